@@ -5,6 +5,13 @@ V = os.path.dirname(os.path.dirname(os.path.abspath(__file__)))
 props = [json.loads(l) for l in open(os.path.join(V, "properties.jsonl"))]
 
 CLAIMS = {
+ "C01": dict(
+   text="TLC model-checks, for every accepted program of a bounded enumerated family (every construct shape in one-hole contexts, "
+        "pairwise nesting, label/jump/call graphs, all surface forms) plus random programs, the lock-step product of the source "
+        "semantics (ExpsSemantics.tla, ExpsForms.tla) with the SSB machine running the ops the real compiler produced "
+        "(CompileEquiv.tla): every path for every outcome of every test, plus the routine table.",
+   ref="§2, §3 C01", technique="TLC model checking of the source-semantics x compiled-bytecode product (explicit TLA+ spec)",
+   note="bounded program family + random sampling; tests uninterpreted; Call as two-way test; plain literals; the ANTLR grammar is trusted for syntax when building the node table"),
  "C07": dict(
    text="TLC walks every recorded SsbScript round trip (real decompiler + real compiler) op by op against the input "
         "routine set (SsbScriptRT.tla: same routines, kinds, targets, coroutine names, ops, parameters, jump parameters "
